@@ -45,14 +45,14 @@ type RuleResult struct {
 
 // PropResult is what one worker (one configuration) found for one property.
 type PropResult struct {
-	Prop        string       `json:"property"`
-	Config      string       `json:"config"`
-	Rules       []RuleResult `json:"rules"`
-	Findings    []Finding    `json:"findings"`
-	Funcs       []string     `json:"functions_analysed"`
-	Assumptions []string     `json:"assumptions"`
-	NotDecided  []string     `json:"not_decided"`
-	Explanation string       `json:"explanation"`
+	Prop        string                 `json:"property"`
+	Config      string                 `json:"config"`
+	Rules       []RuleResult           `json:"rules"`
+	Findings    []Finding              `json:"findings"`
+	Funcs       []string               `json:"functions_analysed"`
+	Assumptions []string               `json:"assumptions"`
+	NotDecided  []string               `json:"not_decided"`
+	Explanation string                 `json:"explanation"`
 	Extra       map[string]interface{} `json:"extra,omitempty"`
 }
 
